@@ -3,7 +3,7 @@ import VtlModel.Sem.Aggr
 /-! Protocol of the aggregation model: `(eval (<datasets>) <aexpr>)` where
 `<aexpr> ::= (aggr <spec> <aexpr>) | <dexpr of Sem/Codec>` and
 `<spec> ::= (spec <grouping> <items> <having>)`,
-`<grouping> ::= (by n…) | (except n…) | none`,
+`<grouping> ::= (by n…) | (except n…) | none | (all <time identifier>)` (the last: `group all time_agg("A")`),
 `<items> ::= (each <op>) | (list (item <out> <op> <arg>)…)`, `<arg> ::= (expr <sexpr>) | any | all`,
 `<having> ::= _ | (having ((item <name> <op> <arg>)…) <sexpr>)`.
 In a clause (`list`, `having`) a `count` item carries the engine's `NULLIF(count, 0)`; this is fixed here, the
@@ -34,6 +34,7 @@ def decGrouping : Sexp → Option Grouping
   | .atom "none" => some .none
   | .list (.atom "by" :: ns) => (ns.mapM name?).map .by
   | .list (.atom "except" :: ns) => (ns.mapM name?).map .except
+  | .list [.atom "all", n] => (name? n).map .all
   | _ => none
 
 def decItems : Sexp → Option Items
@@ -52,14 +53,14 @@ def decSpec : Sexp → Option AggSpec
       pure { grouping := (← decGrouping g), items := (← decItems its), having := (← decHaving h) }
   | _ => none
 
-/-- an aggregation applied to an expression: `.app1 (aggr spec) d`; also returns the spec and operand of the
+/-- an aggregation applied to an expression: `.app1 (aggrT spec) d`; also returns the spec and operand of the
 outermost aggregation (for the `squared` tag). -/
 def decA : Nat → Sexp → Option (DExpr × Option (AggSpec × DExpr))
   | 0, _ => none
   | k+1, .list [.atom "aggr", s, d] => do
       let spec ← decSpec s
       let (de, _) ← decA k d
-      pure (.app1 (aggr spec) de, some (spec, de))
+      pure (.app1 (aggrT spec) de, some (spec, de))
   | _+1, e => (decD (depth e + 1) e).map (fun d => (d, none))
 
 def handleA (req : Sexp) : Sexp :=
